@@ -284,10 +284,52 @@ static void do_load(char **w) {
 	free(schain); free(cchain);
 }
 
+/* ---- tls_record_recv on a socket whose peer delivers a record in pieces and then closes: the call returns (1 for a
+ * complete record, 0 / -1 otherwise; -EAGAIN only before the first byte) within a bounded time, blocking or not.
+ *   rrclose <nonblock 0|1> <bytes hex> <first> <second>   the writer sends <first> bytes, pauses, <second> more, pauses, closes */
+#include <setjmp.h>
+#include <signal.h>
+static sigjmp_buf rr_jmp;
+static void rr_alarm(int sig) { (void)sig; siglongjmp(rr_jmp, 1); }
+typedef struct { int fd; const uint8_t *p; size_t a, b; } rr_writer_t;
+static void *rr_writer(void *arg) {
+	rr_writer_t *w = arg; struct timespec ts = { 0, 40000000 };
+	if (w->a) { ssize_t r = write(w->fd, w->p, w->a); (void)r; }
+	nanosleep(&ts, NULL);
+	if (w->b) { ssize_t r = write(w->fd, w->p + w->a, w->b); (void)r; }
+	nanosleep(&ts, NULL);
+	close(w->fd);
+	return NULL;
+}
+static void do_rrclose(char **w) {
+	int nb = atoi(w[1]), sv[2], r = -99, iters = 0; buf_t data = hex2buf(w[2]); rr_writer_t wr; pthread_t th;
+	uint8_t *rec = malloc(TLS_MAX_RECORD_SIZE); size_t len = (size_t)-1;
+	wr.a = strtoul(w[3], NULL, 10); wr.b = strtoul(w[4], NULL, 10);
+	if (wr.a + wr.b > data.n || socketpair(AF_UNIX, SOCK_STREAM, 0, sv) != 0) { printf("ERR setup"); return; }
+	if (nb) fcntl(sv[0], F_SETFL, fcntl(sv[0], F_GETFL) | O_NONBLOCK);
+	wr.fd = sv[1]; wr.p = data.p;
+	pthread_create(&th, NULL, rr_writer, &wr);
+	signal(SIGALRM, rr_alarm);
+	if (sigsetjmp(rr_jmp, 1)) { printf("HANG after %d call(s)\n", iters); fflush(stdout); _exit(0); }
+	alarm(3);
+	while (iters++ < 400) {
+		struct pollfd pf = { sv[0], POLLIN, 0 };
+		errno = 0;
+		r = tls_record_recv(rec, &len, sv[0]);
+		if (r != -EAGAIN) break;
+		poll(&pf, 1, 20);
+	}
+	alarm(0);
+	pthread_join(th, NULL);
+	printf("ret=%d len=%zu calls=%d", r == -EAGAIN ? -11 : r, r == 1 ? len : 0, iters);
+	close(sv[0]); free(rec); free(data.p);
+}
+
 static void handle(size_t nw, char **w) {
 	if (!strcmp(w[0], "hs") && (nw == 7 || nw == 8)) do_hs(nw, w);
 	else if (!strcmp(w[0], "hs2") && nw == 6) do_hs2(w);
 	else if (!strcmp(w[0], "load") && nw == 4) do_load(w);
+	else if (!strcmp(w[0], "rrclose") && nw == 5) do_rrclose(w);
 	else if (!strcmp(w[0], "sigcheck") && nw == 5) {
 		/* sm2_verify called directly: does <sig> verify over <content> under the public key of <cert> with identity <id>? */
 		buf_t id = hex2buf(w[1]), cert = hex2buf(w[2]), content = hex2buf(w[3]), sg = hex2buf(w[4]);
